@@ -654,8 +654,15 @@ func c03Placement(c *Ctx) {
 			continue
 		}
 		ast.Inspect(c.P.Decls[f].Body, func(n ast.Node) bool {
-			if kv, ok := n.(*ast.KeyValueExpr); ok && types.ExprString(kv.Key) == "hasBody" {
-				bodySets[spec[0]] = c03VerbSet(c, c.P.DeclPkg[f].TypesInfo, kv.Value)
+			if kv, ok := n.(*ast.KeyValueExpr); ok {
+				finfo := c.P.DeclPkg[f].TypesInfo
+				if t := finfo.TypeOf(kv.Value); t != nil {
+					if b, ok := t.Underlying().(*types.Basic); ok && b.Kind() == types.Bool {
+						if vs := c03VerbSet(c, finfo, kv.Value); len(vs) > 0 {
+							bodySets[spec[0]] = vs
+						}
+					}
+				}
 			}
 			return true
 		})
